@@ -490,9 +490,12 @@ def shared_runner_world(spec, stmts, dialect, want):
 
     g = stream(spec["seed"], "shared")
     runner = LineageRunner(";\n".join(stmts), dialect=dialect)
-    sched = Scheduler(make_chooser(g.choice(["retbias", "random", "pct2", "sticky50"]), stream(spec["seed"], "shared-sched"), horizon=400), max_steps=400_000, hang_s=100.0)
+    if g.random() < 0.5:
+        # already evaluated by the time the two callers meet: their accesses then race only inside the result views
+        runner.statements()
+    sched = Scheduler(make_chooser(g.choice(["retbias", "retbias", "retbias", "random", "pct2", "sticky50"]), stream(spec["seed"], "shared-sched"), horizon=400), max_steps=3_000_000, hang_s=150.0)
     got = {}
-    progs = [[g.choice(["statements", "roles", "roles", "cyto"]) for _ in range(g.choice([1, 2, 3]))] for _ in range(2)]
+    progs = [[g.choice(["statements", "roles", "roles", "roles"]) for _ in range(g.choice([1, 2, 3, 5]))] for _ in range(2)]
 
     def mk(i):
         def body():
@@ -511,12 +514,26 @@ def shared_runner_world(spec, stmts, dialect, want):
 
     for i in range(2):
         sched.spawn(f"caller{i}", mk(i))
-    tracer = LineTracer(sched, [runner_mod], granularity=g.choice(["line", "line", "instr"]))
+    import sqllineage.core.holders as holders_mod
+
+    # pre-emption inside runner.py and (60%) also inside core/holders.py, where the summary views live
+    # (only the SQLLineageHolder class - the accumulated result and its views - not the per-statement machinery)
+    mods = [runner_mod] + ([holders_mod.SQLLineageHolder] if g.random() < 0.6 else [])
+    tracer = LineTracer(sched, mods, granularity=g.choice(["line", "line", "instr"]))
     tracer.install()
     try:
         sched.run()
     finally:
         tracer.uninstall()
+    bad = _judge_shared(got, stmts, dialect, want)
+    if bad:
+        return bad
+    if spec.get("insertion_sweep"):
+        return insertion_sweep(spec, stmts, dialect, want)
+    return None
+
+
+def _judge_shared(got, stmts, dialect, want):
     for i in range(2):
         for kind, val in got.get(i, []):
             if kind == "exception":
@@ -525,6 +542,59 @@ def shared_runner_world(spec, stmts, dialect, want):
                 return {"class": "shared_runner_mismatch", "message": f"script {stmts} ({dialect}) on one runner shared by two threads: statements() returned {val} statements, the script has {len(stmts)}", "at": len(stmts)}
             if kind == "roles" and val != want:
                 return {"class": "shared_runner_mismatch", "message": f"script {stmts} ({dialect}) on one runner shared by two threads whose first accesses overlapped: observed {val}; a single caller gets {want}", "at": len(stmts)}
+    return None
+
+
+def insertion_sweep(spec, stmts, dialect, want):
+    """Systematic single insertion (sched.InsertAtChooser): an evaluated runner, two callers asking for the summary;
+    for EVERY yield point k of the first caller's request the second caller's whole request is inserted there.
+    Each k starts from a deep copy of the freshly evaluated runner (views not yet computed)."""
+    import copy
+
+    import sqllineage.core.holders as holders_mod
+    import sqllineage.runner as runner_mod
+    from sqllineage.runner import LineageRunner
+
+    from ..sched import InsertAtChooser, LineTracer, Scheduler
+
+    base = LineageRunner(";\n".join(stmts), dialect=dialect)
+    base.statements()
+    gran = "instr" if stream(spec["seed"], "sweep").random() < 0.15 else "line"
+    k = -1  # first a dry run without insertion, to count the yield points of the victim's request
+    total = None
+    tracer = None
+    try:
+        while total is None or k < total:
+            runner = copy.deepcopy(base)
+            sched = Scheduler(InsertAtChooser(0, k if k >= 0 else 10 ** 9, 1), max_steps=2_000_000, hang_s=100.0)
+            got = {}
+
+            def mk(i, runner=runner, sched=sched, got=got):
+                def body():
+                    sched.yield_point("op", "roles")
+                    try:
+                        got[i] = [("roles", observe_runner(runner))]
+                    except Exception as e:
+                        got[i] = [("exception", type(e).__name__)]
+                return body
+
+            sched.spawn("victim", mk(0))
+            sched.spawn("intruder", mk(1))
+            if tracer is None:
+                tracer = LineTracer(sched, [runner_mod, holders_mod.SQLLineageHolder], granularity=gran)
+                tracer.install()
+            tracer.sched = sched
+            sched.run()
+            if total is None:
+                total = min(sched.chooser.count, 4000)  # yield points of the victim's request
+            bad = _judge_shared(got, stmts, dialect, want)
+            if bad:
+                bad["message"] += f" [systematic insertion: the second caller's request inserted at yield point {k} of {total} ({gran} granularity) of the first caller's]"
+                return bad
+            k += 1
+    finally:
+        if tracer is not None:
+            tracer.uninstall()
     return None
 
 
@@ -592,14 +662,14 @@ def gen(seed, path="holder") -> dict:
             if w:
                 touched.append(w)
     return {"seed": seed, "path": path, "ops": ops, "universe": sorted(set(universe) | {"e", "f"}), "share_holders": g.random() < 0.4,
-            "shared_runner": g.random() < 0.35}
+            "shared_runner": g.random() < 0.7, "insertion_sweep": g.random() < 0.12}
 
 
 def plan(seed: int, tier: str) -> list[dict]:
     master = stream(seed, "c03-plan")
     units = []
     n_holder = {"quick": 60_000, "thorough": 1_500_000}[tier]
-    n_sql = {"quick": 1_600, "thorough": 40_000}[tier]
+    n_sql = {"quick": 2_000, "thorough": 40_000}[tier]
     block = 1000
     for b in range(n_holder // block):
         hs = [0, 1, 2, 3, 5, 7, 11, 13][b % 8]
